@@ -211,6 +211,41 @@ class ChannelInventory:
                     if n in (RAW_SEND, RAW_RECV):
                         self.raw_sites.append((b, bi, t, n))
                         break
+        # new wrappers: a function outside the table whose channel operations all take their label from the
+        # function's own `&str` parameter forwards its caller's message (e.g. a helper factored out of
+        # `scatter` / `unverified_broadcast`).  It becomes part of the channel layer: its calls are the sites.
+        for _round in range(3):
+            by_owner = defaultdict(list)
+            for s in self.sites:
+                by_owner[s.body.owner].append(s)
+            new = {}
+            for owner, ss in by_owner.items():
+                if owner in PRIMS:
+                    continue
+                if all(s.label_src[0] == "param" and s.label_src[1] == owner for s in ss):
+                    idxs = {s.label_src[2] for s in ss}
+                    if len(idxs) == 1:
+                        new[owner] = (list(idxs)[0], any(PRIMS[s.prim][1] for s in ss), any(PRIMS[s.prim][2] for s in ss), all(PRIMS[s.prim][3] for s in ss))
+            if not new:
+                break
+            for owner, (idx, snd, rcv, ver) in new.items():
+                PRIMS[owner] = ("wrapper:" + owner.rsplit("::", 1)[-1], snd, rcv, ver)
+                self.phase_idx[owner] = idx
+            for key, b in prog.bodies.items():
+                if b.krate != krate:
+                    continue
+                for bi, t in b.calls():
+                    for n in callee_names(t):
+                        if n in new:
+                            s = Site()
+                            s.body, s.bk, s.block, s.term, s.prim = b, key, bi, t, n
+                            s.kind = PRIMS[n][0]
+                            s.phase_arg = self.phase_idx[n]
+                            s.sp = t["sp"]
+                            s.label_src = resolve_label(prog, b, t["args"][s.phase_arg]) if s.phase_arg < len(t["args"]) else ("?",)
+                            s.label = None
+                            self.sites.append(s)
+                            break
         # interprocedural: labels flowing into a function's phase parameter
         self.param_labels = defaultdict(set)  # (fn owner, arg idx) -> concrete labels
         changed = True
@@ -225,6 +260,43 @@ class ChannelInventory:
                     if lab not in self.param_labels[key]:
                         self.param_labels[key].add(lab)
                         changed = True
+        # wrappers that are not in PRIMS (a new helper that forwards its `phase` parameter): labels flow into
+        # their parameter from every call site of the wrapper
+        def params_of(src):
+            if src[0] == "param":
+                return {(src[1], src[2])}
+            if src[0] == "concat":
+                return params_of(src[2])
+            return set()
+        for _ in range(4):
+            need = set()
+            for s in self.sites:
+                if not self.concretize(s.label_src):
+                    need |= params_of(s.label_src)
+            need = {x for x in need if x[0] not in PRIMS}
+            if not need:
+                break
+            fns = {x[0] for x in need}
+            grew = False
+            for key, b in prog.bodies.items():
+                if b.krate != krate:
+                    continue
+                for bi, t in b.calls():
+                    for n in callee_names(t):
+                        if n in fns:
+                            for (fn, idx) in need:
+                                if fn == n and idx < len(t["args"]):
+                                    src = resolve_label(prog, b, t["args"][idx])
+                                    for lab in self.concretize(src):
+                                        if lab not in self.param_labels[(fn, idx)]:
+                                            self.param_labels[(fn, idx)].add(lab)
+                                            grew = True
+                                    # the caller forwards its own parameter: resolve that one in the next round
+                                    for (f2, i2) in params_of(src):
+                                        if not self.param_labels.get((f2, i2)) and f2 not in PRIMS:
+                                            pass
+            if not grew:
+                break
         for s in self.sites:
             labs = self.concretize(s.label_src)
             s.label = sorted(labs) if labs else None
